@@ -90,6 +90,10 @@ pub use ohkami_lib::stream::{self, Stream, StreamExt};
 /// # ;
 /// ```
 #[inline] pub fn unix_timestamp() -> u64 {
+    #[cfg(feature="ohkami_verif")] {
+        let pinned = __VERIF_CLOCK.load(std::sync::atomic::Ordering::Relaxed);
+        if pinned != u64::MAX {return pinned}
+    }
     std::time::SystemTime::now()
         .duration_since(std::time::UNIX_EPOCH)
         .unwrap()
@@ -193,3 +197,7 @@ pub const IP_0000: std::net::IpAddr = std::net::IpAddr::V4(std::net::Ipv4Addr::n
 
 #[cfg(feature="rt_glommio")]
 pub use num_cpus;
+
+#[cfg(feature="ohkami_verif")]
+#[doc(hidden)]
+pub static __VERIF_CLOCK: std::sync::atomic::AtomicU64 = std::sync::atomic::AtomicU64::new(u64::MAX);
